@@ -543,6 +543,9 @@ void yield_point(Task* t, int kind, unsigned size, uint32_t pc) {
       if (to < 0) {
         switch (g.cfg.strategy) {
           case S_SERIAL: break;
+          case S_LOCKSTEP:
+            if ((kind == EV_OPB || kind == EV_START) && g.rng.uniform() < 0.5) to = random_eligible(t->id);
+            break;
           case S_EXPLICIT: to = explicit_lookup(t, off); break;
           case S_OPGRAIN:
             if ((kind == EV_OPB || kind == EV_OPE) && g.rng.uniform() < g.cfg.p) to = random_eligible(t->id);
@@ -576,6 +579,14 @@ void yield_point(Task* t, int kind, unsigned size, uint32_t pc) {
   if (kind != EV_READ && kind != EV_WRITE) {
     r.conflict_sig = mix64(r.conflict_sig ^ ((uint64_t)(t->id + 1) << 56) ^ ((uint64_t)kind << 48) ^ pc);
   }
+}
+
+// lock-order search: right after a task has acquired a lock, let every other task run up to its
+// own next acquisition; two tasks taking two locks in opposite orders then meet with certainty
+void after_acquire(Task* t) {
+  if (g.cfg.strategy != S_LOCKSTEP || g.fair || g.ntasks < 2) return;
+  int to = next_rr(t->id);
+  if (to >= 0) do_switch(t, to, 0);
 }
 
 void block_on(Task* t, uintptr_t addr) {
@@ -1338,6 +1349,7 @@ int pthread_mutex_lock(pthread_mutex_t* m) {
     g.res->mutex_block++;
     block_on(t, (uintptr_t)m);
   }
+  after_acquire(t);
   t->in_rt = 0;
   return 0;
 }
@@ -1537,6 +1549,7 @@ static int rwlock_model(Task* t, pthread_rwlock_t* l, bool write, bool try_only,
     g.res->mutex_block++;
     block_on(t, (uintptr_t)l);
   }
+  after_acquire(t);
   t->in_rt = 0;
   return 0;
 }
